@@ -107,14 +107,22 @@ static void c08_run(vf_case *c)
     const vf_api *P = c->P; vf_rng *r = &c->rng; char buf[400], why[300];
     gen_spec g; run_opts o;
     gen_spec_random(r, P, &g, 2, c->tier ? 30 : 22, 1);
-    static const int pats[] = { PAT_RANDOM_DIAG, PAT_GRID, PAT_ARROW, PAT_BAND, PAT_BLOCKTRI, PAT_DENSE, PAT_RANDOM_DIAG };
-    g.pattern = rng_pick(r, pats, 7); g.values = rng_bool(r, 0.5) ? VAL_UNIF : VAL_DIAGDOM; g.explicit_zeros = 0;
+    static const int pats[] = { PAT_RANDOM_DIAG, PAT_GRID, PAT_ARROW, PAT_BAND, PAT_BLOCKTRI, PAT_DENSE, PAT_LOWERDENSE, PAT_ARROW, PAT_GRID };
+    g.pattern = rng_pick(r, pats, 9); g.values = rng_bool(r, 0.5) ? VAL_UNIF : VAL_DIAGDOM; g.explicit_zeros = 0;
+    int fillbomb = rng_bool(r, 0.35);     /* dense first row and column in natural order: L and U fill completely, every array outgrows a fill estimate of 1 */
+    if (fillbomb) { g.pattern = PAT_DIAG; g.n = g.m = rng_int(r, 8, c->tier ? 40 : 26); }
     vf_mat A; gen_matrix(r, P, &g, &A);
+    if (fillbomb) { vf_mat B; B.m = B.n = A.n; int nn = A.n; B.nnz = 3 * (int_t)nn - 2; B.colptr = malloc(sizeof(int_t) * (size_t)(nn + 1)); B.rowind = malloc(sizeof(int_t) * (size_t)(B.nnz + 1)); B.v = malloc(sizeof(ldc) * (size_t)(B.nnz + 1)); int_t q = 0;
+        for (int j = 0; j < nn; j++) { B.colptr[j] = q; if (j == 0) { for (int i = 0; i < nn; i++) { B.rowind[q] = i; B.v[q++] = P->round(i == 0 ? 4.0L : 0.5L + 0.01L * i); } } else { B.rowind[q] = 0; B.v[q++] = P->round(0.25L + 0.02L * j); B.rowind[q] = j; B.v[q++] = P->round(3.0L + 0.1L * j); } }
+        B.colptr[nn] = q; mat_free(&A); A = B; vf_tag(c, "fillbomb"); }
     int n = A.n;
     plan_t pl; memset(&pl, 0, sizeof pl);
     pl.ilu = rng_bool(r, 0.3); pl.route = rng_bool(r, 0.5); gen_run_opts(r, &o, 1); pl.rowmajor = pl.route ? o.rowmajor : 0;
     gen_tuning(r, 1);
-    if (rng_bool(r, 0.5)) vf_ienv_set(6, rng_int(r, 1, 3));          /* small fill estimate: in-flight expansions inside the workspace */
+    if (rng_bool(r, 0.75)) vf_ienv_set(6, rng_bool(r, 0.7) ? 1 : rng_int(r, 2, 3));   /* small fill estimate: in-flight expansions inside the workspace */
+    if (rng_bool(r, 0.4)) o.opt.ColPerm = rng_bool(r, 0.5) ? NATURAL : MY_PERMC;        /* orderings that do not fight fill: U outgrows the estimate */
+    if (fillbomb) { o.opt.ColPerm = NATURAL; o.opt.SymmetricMode = NO; vf_ienv_set(6, 1);
+        if (rng_bool(r, 0.6)) { vf_ienv_set(3, rng_int(r, 1, 2)); vf_ienv_set(2, 1); vf_ienv_set(7, rng_int(r, 1, 2)); } }   /* tiny supernodes: the fill lands in U's column storage */
     if (pl.ilu) { gen_ilu_options(r, &pl.opt); pl.opt.RowPerm = rng_bool(r, 0.3) && pl.route ? LargeDiag_MC64 : NOROWPERM; ilu_options_str(&pl.opt, buf, sizeof buf); }
     else { set_default_options(&pl.opt); pl.opt.ColPerm = o.opt.ColPerm; pl.opt.DiagPivotThresh = o.opt.DiagPivotThresh; pl.opt.SymmetricMode = o.opt.SymmetricMode; pl.opt.PrintStat = NO; pl.opt.Equil = o.opt.Equil; run_opts_str(&o, buf, sizeof buf); }
     pl.opt.PivotGrowth = NO; pl.opt.ConditionNumber = NO; pl.opt.IterRefine = NOREFINE;
@@ -138,7 +146,7 @@ static void c08_run(vf_case *c)
         vf_tag(c, "mode=growthfail");
         vf_fault_arm("expand", 1 << 30); uint64_t hh; int ee; attempt(c, P, &A, &pl, NULL, 0, &hh, &ee, &sbad, why, sizeof why); long total = vf_fault_seen(); vf_fault_arm(NULL, 0);
         int reported = 0, survived = 0;
-        for (long k = 1; k <= total && c->verdict != 1; k++) {
+        for (long k = 1; k <= total && c->nmore < 3; k++) {
             uint64_t mark = vf_ledger_mark();
             vf_fault_arm("expand", k); int_t info = attempt(c, P, &A, &pl, NULL, 0, &hh, &ee, &sbad, why, sizeof why); int fired = vf_fault_fired(); vf_fault_arm(NULL, 0);
             if (!fired) continue;
@@ -170,13 +178,14 @@ static void c08_run(vf_case *c)
         size_t need = hi;
         /* lengths: dense 4-byte grid in windows around 0, need and the pointer/work-array thresholds; coarse elsewhere */
         long win = c->tier ? 3072 : 1024; int nrun = 0, nshort = 0, nok = 0;
-        for (int pass = 0; pass < 2 && c->verdict != 1; pass++) {
+        for (int pass = 0; pass < 2 && c->nmore < 3; pass++) {
             int a4 = pass ? !align4 : align4;
-            for (size_t L = 0; L <= need + (size_t)win && c->verdict != 1; ) {
+            for (size_t L = 0; L <= need + (size_t)win && c->nmore < 3; ) {
                 uint64_t mark = vf_ledger_mark();
                 arena_place(&ar, L, a4);
                 uint64_t hh; int ee; int_t info = attempt(c, P, &A, &pl, ar.work, (int_t)L, &hh, &ee, &sbad, why, sizeof why); nrun++;
                 long wh;
+                if (vf_events_count(VF_EV_STACK_OVERLAP) > 0) { vf_viol(c, "workspace-stack-overlap", "%s: lwork=%zu (align %d): after a storage growth the head of the workspace stack passed its tail (arrays overlap the work vectors); info=%lld", rn, L, a4 ? 4 : 8, (long long)info); vf_events_reset(); }
                 UNPOISON(ar.base, ar.cap);
                 if (!arena_canary_ok(&ar, &wh)) vf_viol(c, "write-outside-workspace", "%s: lwork=%zu (align %d): byte at offset %ld relative to work[] was overwritten", rn, L, a4 ? 4 : 8, wh);
                 if (L == 0) { /* lwork = 0 means library allocation */ }
@@ -189,13 +198,15 @@ static void c08_run(vf_case *c)
                 } else vf_viol(c, "shortage-misreported", "%s: lwork=%zu (align %d) returned info=%lld (n=%d): neither success nor info > n", rn, L, a4 ? 4 : 8, (long long)info, n);
                 /* next length */
                 long d = (long)L - (long)need; size_t step = 4;
-                if (!(L < 512 || (d > -win && d < win))) step = pass ? 1028 : 516;
+                int full = pass == 0 && need <= (c->tier ? 65536u : 24576u);     /* complete 4-byte sweep for one alignment when affordable */
+                if (!full && !(L < 512 || (d > -win && d < win))) step = pass ? 1028 : 516;
                 L += step;
             }
         }
         arena_free(&ar);
+        c->counters[5] += vf_events_count(VF_EV_WS_GROWTH);
         c->counters[0] += nrun; c->counters[1] += nshort; c->counters[6] += nok; if ((long)need > c->counters[7]) c->counters[7] = (long)need;
-        c->nontrivial = nshort >= 10 && nok >= 10; vf_tag(c, "sweep=window-exhaustive");
+        c->nontrivial = nshort >= 10 && nok >= 10; vf_tag(c, need <= (c->tier ? 65536u : 24576u) ? "sweep=complete-4-byte-grid" : "sweep=windows");
     }
 out:
     free(mypc); mat_free(&A);
